@@ -572,7 +572,9 @@ class Gen:
         else:
             d = self.ch(self.directives)
         name = d["name"]
-        written = name if self.p(0.8) else name.split(":")[-1]
+        if name.split(":")[-1] == "facet" and self.p(0.4):
+            return self.facet_tree(depth)
+        written = name if self.p(0.5) else name.split(":")[-1]   # real documents use the unqualified spelling
         head = f".. {written}::"
         arg = None
         sp = self.special_arg(name)
@@ -687,6 +689,22 @@ class Gen:
                 content = [f":{self.ch(d['fields'] + ['nope'])}: {self.text()}" for _ in range(self.r.randint(1, 3))] + [""] + content
         lines += self.ind(content, ci)
         return lines
+
+    def facet_tree(self, depth, level=0):
+        """facets as authors write them (unqualified, both options, a valid outer pair), the nested one naming a category below
+        the selected entry - or something else that entry has: one of its attributes, a category of another level, nonsense"""
+        if level == 0:
+            name, values = self.ch([("target_product", "atlas"), ("target_product", "atlas"), ("target_product", "bi-connector"), ("target_product", "drivers"),
+                                    ("genre", "tutorial"), ("programming_language", "python"), ("target_product", "zz")])
+        else:
+            name, values = self.ch([("sub_product", "atlas-cli"), ("sub_product", "charts"), ("version", "v1.0"), ("name", "charts"), ("name", "atlas"),
+                                    ("display_name", "BI Connector"), ("display_name", "Charts"), ("genre", "tutorial"), ("flavour", "charts"),
+                                    ("sub_product", "zz"), ("target_product", "atlas")])
+        out = [".. facet::", f"   :name: {name}", f"   :values: {values}", ""]
+        if level < 2 and self.p(0.75 if level == 0 else 0.3):
+            for _ in range(self.r.randint(1, 2)):
+                out += self.ind(self.facet_tree(depth + 1, level + 1), "   ")
+        return out
 
     def sub_directive(self, base, depth):
         for cand in (base, "mongodb:" + base):
